@@ -5,6 +5,8 @@ CONSTANTS
   MaxReplies = 1
   LeakOnSendError = TRUE
   MatchCreation = TRUE
+  OtherPeer = FALSE
+  ClearOnAnyDisconnect = FALSE
   SeqCallers = FALSE
   RemoveOnTimeout = TRUE
 CHECK_DEADLOCK FALSE
